@@ -45,6 +45,7 @@ type simConn struct {
 	answered   int // responses fully delivered into the read buffer
 	failed     int // written requests whose call already returned an error
 	dialUs     int64
+	owner      int
 	sawError   bool // a Read/Write already returned an error to the client
 	deliveredCorr map[int32]bool // correlation ids of responses put into the client's read buffer
 	poisoned   bool // the server injected a garbage response on this connection
@@ -191,6 +192,9 @@ func (c *simConn) serverCloseOrdered(k *kernel) {
 	k.after(time.Until(at), func() { c.serverClose(true) })
 }
 
+// serverSilence: the peer vanished without a word (crash of the client host, blackhole).
+func (c *simConn) serverSilence() {}
+
 func (c *simConn) isDead() bool {
 	c.mu.Lock()
 	defer c.mu.Unlock()
@@ -232,11 +236,23 @@ func (c *simConn) SetWriteDeadline(t time.Time) error {
 
 // dialer is the Net.Proxy.Dialer seam.
 type dialer struct {
-	cl *cluster
+	cl      *cluster
+	owner   int  // member index (0 = untagged)
+	crashed bool // the owning process is gone: nothing gets through any more
+	conns   []*simConn
 }
 
 func (d *dialer) Dial(network, a string) (net.Conn, error) {
 	cl := d.cl
+	if d.crashed {
+		// the owning host is cut off for good: every dial times out
+		to := time.Duration(R.c.Config.DialTimeoutMs) * time.Millisecond
+		if to == 0 {
+			to = 30 * time.Second
+		}
+		time.Sleep(to)
+		return nil, &net.OpError{Op: "dial", Net: "tcp", Err: os.ErrDeadlineExceeded}
+	}
 	br := cl.brokerByAddr(a)
 	lat := cl.k.latency()
 	if br == nil {
@@ -279,6 +295,8 @@ func (d *dialer) Dial(network, a string) (net.Conn, error) {
 	cl.nConn++
 	c := &simConn{id: cl.nConn, k: cl.k, cl: cl, br: br, notify: make(chan struct{}, 1), noResp: map[int]bool{}, dialUs: cl.k.nowUs()}
 	br.conns = append(br.conns, c)
+	c.owner = d.owner
+	d.conns = append(d.conns, c)
 	cl.mu.Unlock()
 	cl.k.logf("dial %s ok c%d", a, c.id)
 	return c, nil
